@@ -6,8 +6,8 @@
     hcount, charge and equal bond maps;  [amap_id] = atom_map is the node id;  orders are half-units. *)
 From Coq Require Import String.
 From Coq Require Import List NArith ZArith Bool.
-From SK Require Import lib.LGraph lib.C01_GraphLemmas model.C01_Model model.C02_Model model.C01_Opts model.C01_String model.C01_Renum model.C01_Attrs model.C01_CleanWc model.C01_Rsmi model.C01_Nbrs model.C01_Rewrite model.C01_Conv model.C01_G2M model.C01_DecRaw model.C01_HBal model.C01_M2GIdx model.C01_Prem
-  proof.C01_Proof proof.C01_OptsProof proof.C01_StringProof proof.C01_StringHyd proof.C01_StringPipe proof.C01_StringEH proof.C01_StringRenum proof.C01_StringHydExt proof.C01_RenumCentre proof.C01_RenumWrite proof.C01_StringEHwf proof.C01_AttrsProof proof.C01_StringPipeH proof.C01_CleanWcProof proof.C01_RsmiProof proof.C01_NbrsProof proof.C01_RewriteProof proof.C01_ConvProof proof.C01_G2MProof proof.C01_WriteExt proof.C01_RewriteCheck proof.C01_DecRawProof proof.C01_HBalProof proof.C01_HBalString proof.C01_HBalEH proof.C01_M2GIndex proof.C01_ReadWrite proof.C01_HBalW proof.C01_PremProof proof.C01_Capstone proof.C01_ReverseWrite proof.C01_ExtOpts.
+From SK Require Import lib.LGraph lib.C01_GraphLemmas model.C01_Model model.C02_Model model.C01_Opts model.C01_String model.C01_Renum model.C01_Attrs model.C01_CleanWc model.C01_Rsmi model.C01_Nbrs model.C01_Rewrite model.C01_Conv model.C01_G2M model.C01_DecRaw model.C01_HBal model.C01_M2GIdx model.C01_Prem model.C01_Builders
+  proof.C01_Proof proof.C01_OptsProof proof.C01_StringProof proof.C01_StringHyd proof.C01_StringPipe proof.C01_StringEH proof.C01_StringRenum proof.C01_StringHydExt proof.C01_RenumCentre proof.C01_RenumWrite proof.C01_StringEHwf proof.C01_AttrsProof proof.C01_StringPipeH proof.C01_CleanWcProof proof.C01_RsmiProof proof.C01_NbrsProof proof.C01_RewriteProof proof.C01_ConvProof proof.C01_G2MProof proof.C01_WriteExt proof.C01_RewriteCheck proof.C01_DecRawProof proof.C01_HBalProof proof.C01_HBalString proof.C01_HBalEH proof.C01_M2GIndex proof.C01_ReadWrite proof.C01_HBalW proof.C01_PremProof proof.C01_Capstone proof.C01_ReverseWrite proof.C01_ExtOpts proof.C01_BuildersProof.
 Import ListNotations.
 Local Open Scope Z_scope.
 
@@ -831,3 +831,25 @@ Theorem C01_extensional_opts : forall (o : copts) (G H G' H' : mgraph), wf G -> 
   geq (its_construct_o o G' H') (its_construct_o o G H) /\ geq (its_construct_S o G' H') (its_construct_S o G H).
 Proof. exact construct_ext_opts. Qed.
 Print Assumptions C01_extensional_opts.
+
+(** 55. the legacy builder _create_detailed_graph (behind MolToGraph.mol_to_graph(light_weight=False)) with its own bond loop
+        `if b and e:` IS transform, for every molecule and every flag combination: no node id is ever 0 *)
+Theorem C01_detailed_builder : forall (drop use : bool) (m : rmol), detailed_graph drop use m = mol_to_graph drop use m.
+Proof. exact detailed_is_transform. Qed.
+Print Assumptions C01_detailed_builder.
+
+(** 56. the legacy builder _create_light_weight_graph (one loop over the atoms, each atom adds its own bonds, add_edge may
+        create the other end before its attributes are known): PARTIAL.
+        FULL statement (not proved; compared on every m2g case with api = light, also on molecules with no / every other atom
+        mapped): for every molecule and flag combination the result has the labels and bonds of transform,
+          forall drop use m g, mol_to_graph drop use m = Some g ->
+            exists g', light_graph drop use m = Some g' /\ (forall n, label g' n = option_map Some (label g n)) /\
+                       (forall u v, adj g' u v = adj g u v).
+        Proved: the statement for molecules without bonds (then the builder is exactly the node loop of transform, node for
+        node, with every attribute present), for every flag combination.  Missing: the invariant of the nested loop (every
+        end created by add_edge is an atom that is not dropped and is filled in when its own turn comes; every bond is
+        upserted twice with the same order). *)
+Theorem C01_light_builder_partial : forall (drop use : bool) (m : rmol), rm_bonds m = nil ->
+  light_graph drop use m = option_map some_nodes (mol_to_graph drop use m).
+Proof. exact light_no_bonds. Qed.
+Print Assumptions C01_light_builder_partial.
